@@ -52,7 +52,7 @@ func (S) Level() string { return "exploration" }
 func (S) Info() scen.Info {
 	return scen.Info{
 		Rule: "unit = one seeded history: backend x access style x hidden-interface wrapper x key pool (CID binaries and adversarial byte strings) x <=40 operations by 1-4 interleaved clients, fault-free (and, for fsstore, a second profile with seeded disk errors). " +
-			"distinct_nontrivial counts distinct hash(backend config, sequence of (op kind, key class, outcome)) over histories containing at least one successful put followed by a read of the same key.",
+			"distinct_nontrivial counts distinct hash(backend config, sequence of (op kind, key class, outcome)) over histories containing at least one successful put followed by a read of the same key. Later additions: one key per history may hold the empty block (nil, []byte{}, unwritten stream, empty vector); access through the openers LinkSystem.SetReadStorage/SetWriteStorage install; a wrapper store with its own PutVec; rename that refuses to replace.",
 		DistinctSet: "history",
 		Assumptions: []string{
 			"each key is only ever given one content (content-addressed use), as the property states",
